@@ -408,3 +408,83 @@ def image_source(P, fn, ev, t):
             continue
         break
     return strip_sites(t), steps
+
+
+# ---------------------------------------------------------------------------
+# tables indexed by an 8-bit quantity
+
+
+def index_upper_bound(t, P=None, depth=3):
+    """Largest value an index term can take when it is built from an 8-bit quantity, else None."""
+    while t.op in ("ref", "deref"):
+        t = t.a[0]
+    # element of a `map(.., closure)` pipeline: bound of what the closure returns
+    if P is not None and depth > 0 and t.op == "field" and t.a[0].op == "downcast" and t.a[0].a[1] == "Some":
+        nx = t.a[0].a[0]
+        if nx.op == "call" and B.cname(nx) == "Iterator::next" and nx.a[1]:
+            it = B.peel(nx.a[1][0])
+            if it.op == "loop":
+                it = it.a[2]
+            it = B.peel(it)
+            while it.op == "call" and B.cname(it) in ("IntoIterator::into_iter", "Iterator::copied", "Iterator::cloned"):
+                it = B.peel(it.a[1][0])
+            if it.op == "call" and B.cname(it) == "Iterator::map":
+                clo = B.peel(it.a[1][1])
+                if clo.op == "agg" and clo.a[0][0] == "closure" and clo.a[0][1] in P.fns:
+                    return index_upper_bound(strip_sites(evaluate(P.fns[clo.a[0][1]]).ret), P, depth - 1)
+    if t.op == "const" and t.a[0] == "int":
+        return t.a[1]
+    if t.op == "cast" and len(t.a) > 3 and t.a[3] == "u8":
+        return 255
+    if t.op == "cast" and len(t.a) > 3 and t.a[3] in ("usize", "u64", "u32", "u16") and t.a[2] in ("usize", "u64", "u32", "u16"):
+        return index_upper_bound(t.a[1])
+    if t.op == "call" and B.cname(t) in ("From::from", "Into::into") and len(t.a[1]) == 1 and "u8" in tuple(t.a[0][1]):
+        return 255
+    if t.op == "bin" and t.a[0] in ("Sub", "SubUnchecked"):
+        hi, c = index_upper_bound(t.a[1]), B._const_int(t.a[2])
+        return hi - c if hi is not None and c is not None else None
+    if t.op == "bin" and t.a[0] in ("Add", "AddUnchecked"):
+        hi, c = index_upper_bound(t.a[1]), B._const_int(t.a[2])
+        return hi + c if hi is not None and c is not None else None
+    if t.op == "field" and t.a[1] == "0" and t.a[0].op == "bin" and t.a[0].a[0] in ("SubWithOverflow", "AddWithOverflow"):
+        hi, c = index_upper_bound(t.a[0].a[1]), B._const_int(t.a[0].a[2])
+        if hi is None or c is None:
+            return None
+        return hi - c if t.a[0].a[0].startswith("Sub") else hi + c
+    if t.op == "bin" and t.a[0] == "Rem":
+        c = B._const_int(t.a[2])
+        return c - 1 if c else None
+    if t.op == "bin" and t.a[0] == "BitAnd":
+        c = B._const_int(t.a[2])
+        return c
+    return None
+
+
+def table_len(t):
+    """Length of a fixed table `[x; N]` / `[a, b, ..]` a term was created as (through loops and in-place updates)."""
+    for s in subterms(t):
+        if s.op == "repeat" and isinstance(s.a[1], int):
+            return s.a[1]
+    for s in subterms(t):
+        if s.op == "agg" and s.a[0][0] == "array":
+            return len(s.a[1])
+    return None
+
+
+def check_u8_tables(ctx, rule, P, fns, what="share identifier"):
+    """A fixed table looked up with `get`/`get_mut` by a value that ranges over a whole u8 (share identifiers are
+    1..=255) must have at least 256 slots: otherwise the `None` arm silently treats a valid value as absent/invalid.
+    (Panicking `table[i]` forms are the abort census's business.)"""
+    n = 0
+    for f in fns:
+        ev = evaluate(f)
+        for bb, s in sorted(ev.sites.items()):
+            if s.callee[0] not in ("slice::<impl [T]>::get", "slice::<impl [T]>::get_mut", "slice::<impl [T]>::get_unchecked", "slice::<impl [T]>::get_unchecked_mut") or len(s.args) != 2:
+                continue
+            N = table_len(s.args[0])
+            hi = index_upper_bound(strip_sites(s.args[1]), P)
+            if N is None or hi is None:
+                continue
+            n += 1
+            ctx.ob(rule, "%s/%s" % (f.key, s.callee[0].split("::")[-1]), hi < N, "table of %d slot(s) looked up by a value that can be as large as %d (%s): %s" % (N, hi, what, "every value has a slot" if hi < N else "values %d..=%d fall into the `None` arm" % (N, hi)), where=where(f, bb))
+    return n
